@@ -408,7 +408,9 @@ def gen_case(rng, stream, forced=None, focus=None):
         # positional call of a *args function: named positional parameters first, then the star elements
         positional_style = True
         lead = [p for p in params if p['kind'] in ('pos', 'posonly')]
-        args = [vals[p['name']] for p in lead]
+        # (a one-shot iterator passed positionally to a named parameter of a *args function is checked twice - once as that
+        #  parameter, once with all of self.args, then already exhausted: outside the part of the model that is compared)
+        args = [strip_iters(vals[p['name']], False) for p in lead]
         kwargs = [kv for kv in kwargs if kv[0] not in [p['name'] for p in lead]]
         for _ in range(rng.choice([0, 1, 2, 3]) if focus != 'varargs' else rng.choice([1, 1, 2, 3])):
             v = conf(rng, vp[0]['ann'])
@@ -473,7 +475,7 @@ def mutate_near(rng, c, kind, positional_style):
             if lead and not c['args']:
                 k = rng.randrange(1, len(lead) + 1)
                 if all(p['name'] in kw or p['default'] is not None for p in lead[:k]):
-                    moved = [kw[p['name']] if p['name'] in kw else p['default'] for p in lead[:k]]
+                    moved = [strip_iters(kw[p['name']] if p['name'] in kw else p['default'], False) for p in lead[:k]]
                     c['args'] = moved
                     c['kwargs'] = [kv for kv in c['kwargs'] if kv[0] not in [p['name'] for p in lead[:k]]]
                     c['mut'] = 'positional'
@@ -868,9 +870,14 @@ def run(pid, props, tier, seed, replay=None):
     lock_obligation(ck)
     judge = JUDGES[pid]
 
+    # the witnesses of all known findings of this property are replayed in one batch
+    wit = {}
+    if ck.findings:
+        for f, (c, i, m) in zip(ck.findings, evaluate(ck, [copy.deepcopy(f['witness']) for f in ck.findings])):
+            wit[f['id']] = bool(i and m and 'fn' in i and judge(c, i, m))
+
     def still_fails(f):
-        (c, i, m), = evaluate(ck, [f['witness']])
-        return bool(i and m and 'fn' in i and judge(c, i, m))
+        return wit.get(f['id'], False)
     ck.replay_known_findings(still_fails)
     cases = gen_cases(ck.rng, tier, ck.scale()) if (replay is None or 'case' not in replay) else [replay['case']]
     for c in cases:
@@ -930,7 +937,8 @@ def run(pid, props, tier, seed, replay=None):
         'getsource / ismethod are modelled (Base/PyCall.v, the reification in w_pedantic.py), validated by this correspondence only',
         'the type checker is the model of C01/C02 (Model/Checker.v over Gen/CheckerTables.v); theorems are stated relative to it',
         'values\' dunder methods are the builtin ones; class identity = class name',
-        'one-shot iterators are tracked at the top level of an argument only',
+        'one-shot iterators are tracked at the top level of an argument only, and only where the implementation checks the value once '
+        '(not for a positional value of a named parameter of a *args function)',
     ]
     return ck.finish(
         rule='generated modules (real files) x calls: signatures with all parameter kinds / defaults / *args / **kwargs, plain functions, '
